@@ -21,7 +21,7 @@ MODES = {
     'C05': ['bnd_tables'],
     'C06': ['bnd_tables', 'c06_positions'],
     'C07': ['bnd_c07', 'c07_ol', 'c07_compose'],
-    'C08': ['bnd_c08'],
+    'C08': ['bnd_c08', 'c08_elements'],
     'C09': ['bnd_c09', 'c16_affix'],
     'C11': ['bnd_doc', 'bnd_tables', 'bnd_mut'],
     'C12': ['bnd_c12'],
@@ -52,6 +52,7 @@ LEGACY_BOUND = {
     'c14_hardwrap': '3 documents x widths 3..=8: an id whose first word is hard-wrapped still yields exactly one fragment marker',
 }
 STANDS_FOR = {
+    'c08_elements': 'process_dom_node (<a> arm: href / name / content-less links), start_link / end_link through every container kind',
     'c16_compose': 'do_render_node BlockQuote / Ul arms with a user decorator: prefix measured by display width, verbatim on every line',
     'bnd_mut': 'the whole pipeline on malformed input (html5ever error recovery, process_dom_node on whatever tree results, the nom CSS grammar on broken style sheets)',
     'c06_positions': 'render_table_tree / RenderTable::new / into_cells / append_columns_with_borders as a whole: where each cell ends up relative to the column bars',
